@@ -61,8 +61,10 @@ func c08VarInvalid(c *core.Check) {
 			if k, ok := core.ConstInt(x.Y); !ok || k != 0 {
 				continue
 			}
-			if sl, ok := call.Call.Args[0].(*ssa.Slice); ok && sl.Low != nil {
-				if _, isTok := sl.Type().Underlying().(*types.Slice); isTok {
+			// the list is a list of tokens that does not come from the table of variables
+			arg := call.Call.Args[0]
+			if st, isSlice := arg.Type().Underlying().(*types.Slice); isSlice && types.TypeString(st.Elem(), nil) != "" && !core.DerivesFrom(arg, func(v ssa.Value) bool { _, isLookup := v.(*ssa.Lookup); return isLookup }) {
+				if _, nested := st.Elem().Underlying().(*types.Slice); !nested {
 					fallbackAtoms = append(fallbackAtoms, a)
 					fallbackPositive[a] = x.Op == token.NEQ || x.Op == token.GTR
 				}
@@ -237,4 +239,56 @@ func spilledResult(ret *ssa.Return, idx int) ssa.Value {
 		b = b.Preds[0]
 	}
 	return v
+}
+
+// c08VarFallbackCommas (R17): the fallback of a var() reference is a declaration value of its own, commas included
+// (`font-family: var(--f, Arial, serif)` is two families).  ParseFunction returns the arguments with the commas
+// dropped, so its list may supply the variable's name and nothing else: in resolveVar it is only read at a constant
+// position, never re-sliced, ranged over or passed on.
+func c08VarFallbackCommas(c *core.Check) {
+	p := c.Prog
+	r := c.Rule("R17", "the fallback of var() keeps its commas: in resolveVar the comma-less list returned by ParseFunction is only indexed at a constant position (the name); the tokens substituted for the reference are not a slice of it, a range over it or the list itself", 1)
+	rv := p.Fn("html/tree", "resolveVar")
+	if rv == nil {
+		r.Anchor("html/tree.resolveVar")
+		return
+	}
+	n := 0
+	core.Instrs(rv, func(in ssa.Instruction) {
+		ex, ok := in.(*ssa.Extract)
+		if !ok || ex.Index != 1 {
+			return
+		}
+		call, ok := ex.Tuple.(*ssa.Call)
+		if !ok {
+			return
+		}
+		if callee := call.Call.StaticCallee(); callee == nil || callee.Name() != "ParseFunction" {
+			return
+		}
+		n++
+		bad := ""
+		for _, ref := range *ex.Referrers() {
+			switch x := ref.(type) {
+			case *ssa.IndexAddr:
+				if _, ok := core.ConstInt(x.Index); !ok {
+					bad = "indexed at a variable position (ranged over)"
+				}
+			case *ssa.DebugRef:
+			case *ssa.Call:
+				if b, ok := x.Call.Value.(*ssa.Builtin); ok && b.Name() == "len" {
+					continue
+				}
+				bad = "passed to " + core.CalleeName(x)
+			case *ssa.Slice:
+				bad = "re-sliced: the rest of the list is used as tokens"
+			default:
+				bad = fmt.Sprintf("used by %s", ref.String())
+			}
+		}
+		r.Cond(bad == "", "html/tree.resolveVar | arguments of ParseFunction", p.Pos(call.Pos()), "read at constant positions only", "the list is "+bad+": a fallback with commas (`var(--f, Arial, serif)`) loses them and is read as one value")
+	})
+	if n == 0 {
+		r.OK("html/tree.resolveVar | arguments of ParseFunction", p.Pos(rv.Pos()), "the comma-less list is not used at all")
+	}
 }
